@@ -533,7 +533,11 @@ class Sem:
 
     def _norm_variant(self, x, name):
         if x.op == "call" and x.info.endswith("Try::branch"):
-            return ("variant", x.args[0], "Ok" if name == "Continue" else "Err")
+            inner = x.args[0]
+            if inner.op == "call" and inner.info == "std::result::Result::ok" and len(inner.args) == 1:
+                # `read(..).ok()?` in a function returning Option: continuing means the Result was Ok
+                inner = inner.args[0]
+            return ("variant", inner, "Ok" if name == "Continue" else "Err")
         return ("variant", x, name)
 
     NEG = {"Eq": "Ne", "Ne": "Eq", "Lt": "Ge", "Ge": "Lt", "Gt": "Le", "Le": "Gt"}
